@@ -28,10 +28,14 @@ ALLP = [(a, b) for a in range(7) for b in range(7)]
 HEAPF = ['--memory-leak-check', '--slice-formula']
 OPS2 = [(a, b) for a in range(7) for b in range(7)]
 def _ops(pairs, **kw): return [dict(kw, OP0=a, OP1=b) for a, b in pairs]
-_h('hist_vector', 'h_hist', 'utl::vector<int> (heap, malloc/free; CBMC heap model with --memory-leak-check); ' + HB + '. K=2 queries: the two operations are per-query constants (every pair of the 7-letter alphabet in the thorough tier), targets and arguments symbolic',
-   quick=_pre([(0, 0)], KIND=0, K=1, OUTCAP=8) + _ops([(0, 1), (1, 0), (1, 1), (5, 1), (3, 0), (1, 3), (0, 5), (1, 2)], KIND=0, K=2, OUTCAP=9),
-   thorough=_pre(ALLP, KIND=0, K=1, OUTCAP=8) + _ops(OPS2, KIND=0, K=2, OUTCAP=9) + [dict(KIND=0, K=2, OUTCAP=9, PRE0=0, PRE1=0, _timeout=1800, _mem_gb=14)],
-   cbmc_flags=HEAPF, unwind=10, mem_gb=6, kf=['KF_C19_VECTOR_SIZED_CTOR_UNINIT', 'KF_C19_VECTOR_ZERO_LEAK'])
+_h('hist_vector', 'h_hist', 'utl::vector<int> (heap, malloc/free; CBMC heap model with --memory-leak-check); ' + HB,
+   quick=_pre([(0, 0)], KIND=0, K=1, OUTCAP=8), thorough=_pre(ALLP, KIND=0, K=1, OUTCAP=8) + [dict(KIND=0, K=2, OUTCAP=9, PRE0=0, PRE1=0, _timeout=1800, _mem_gb=14)],
+   cbmc_flags=HEAPF, unwind=10, mem_gb=8, kf=['KF_C19_VECTOR_SIZED_CTOR_UNINIT', 'KF_C19_VECTOR_ZERO_LEAK'])
+_OPS2_ONLY = os.environ.get('C19_OPS2')      # builder aid: "6,0" runs just that pair
+_h('hist_vector_ops2', 'h_hist', 'utl::vector<int>, two live objects, histories of 2 steps whose OPERATIONS are per-query constants (every ordered pair of the 7-letter alphabet in the thorough tier, 8 pairs quick); '
+   'targets and arguments n, v symbolic; sizes/elements of both objects against the std::vector model; --memory-leak-check',
+   quick=_ops([tuple(int(x) for x in _OPS2_ONLY.split(','))] if _OPS2_ONLY else [(0, 1), (1, 0), (1, 1), (5, 1), (3, 0), (1, 3), (0, 5), (1, 2)], KIND=0, K=2, OUTCAP=9),
+   thorough=_ops(OPS2, KIND=0, K=2, OUTCAP=9), cbmc_flags=HEAPF, unwind=10, mem_gb=6, kf=['KF_C19_VECTOR_SIZED_CTOR_UNINIT', 'KF_C19_VECTOR_ZERO_LEAK'])
 _h('hist_static_vector', 'h_hist', 'utl::static_vector<int,4>; ' + HB + '; over-capacity push_back/resize must be refused with contents unchanged', quick=_pre([(0, 0)], KIND=1, K=3, OUTCAP=8) + _pre([(2, 1), (5, 3)], KIND=1, K=2, OUTCAP=8),
    thorough=_pre([(0, 0)], KIND=1, K=5, OUTCAP=8) + _pre(ALLP, KIND=1, K=2, OUTCAP=8), unwind=10, kf=['KF_C19_STATIC_RESIZE_STALE'])
 SVOPS = [dict(OP0=0, PRE0=0, PRE1=0)] + [dict(OP0=o, PRE0=1, PRE1=6) for o in (2, 3, 4, 5)]
@@ -51,7 +55,28 @@ _h('maybe_f64', 'h_maybe_f64', 'utl::maybe<double>: same alphabet, values any bi
 _h('either', 'h_either', 'utl::either<int,unsigned char>: K symbolic steps from {assign left, assign right, assign other, self-assign, copy-construct+assign, construct-left/right+assign}', quick=[{'K': 4}], thorough=[{'K': 7}])
 _h('either_heap', 'h_either_heap', 'utl::either<int, utl::vector<int>> (non-trivial alternative), with --memory-leak-check', quick=[{'K': 1}], thorough=[{'K': 2, '_timeout': 1800, '_mem_gb': 12}], cbmc_flags=LEAK, mem_gb=6, kf=['KF_C19_EITHER_NONTRIVIAL'])
 _h('maybe_heap', 'h_maybe_heap', 'utl::maybe<utl::vector<int>> (non-trivial value), with --memory-leak-check', quick=[{'K': 1}], thorough=[{'K': 2, '_timeout': 1800, '_mem_gb': 12}], cbmc_flags=LEAK, mem_gb=6, kf=['KF_C19_MAYBE_NONTRIVIAL'])
-PENDING_FINDINGS = []
+# BEGIN PENDING_FINDINGS (generated from the replay files by the builder; one entry per harness that uses an exclusion macro)
+PENDING_FINDINGS = [
+ dict(id='F-C19-vector-sized-ctor-uninit', harness='ctor', exclude_define='KF_C19_VECTOR_SIZED_CTOR_UNINIT', witness_config={},
+      witness_inputs=['0x1'],
+      what='utl::vector<int>(N) leaves its N elements uninitialised (std::vector(N) value-initialises)'),
+ dict(id='F-C19-static-sized-ctor-over-capacity', harness='ctor_static', exclude_define='KF_C19_STATIC_SIZED_CTOR_OVER_CAPACITY', witness_config={},
+      witness_inputs=['0x5'],
+      what='utl::static_vector<int,4>(N) with N > 4 reports size() N > capacity'),
+ dict(id='F-C19-either-nontrivial', harness='either_heap', exclude_define='KF_C19_EITHER_NONTRIVIAL', witness_config={'K': 1},
+      witness_inputs=['0x1', '0x1', '0xffffffff00000000'],
+      what='utl::either with a heap-owning alternative: the destructor never destroys the active member and copy/assignment assign into unconstructed storage (leaks / invalid frees)'),
+ dict(id='F-C19-static-resize-stale', harness='hist_static_vector', exclude_define='KF_C19_STATIC_RESIZE_STALE', witness_config={'KIND': 1, 'K': 2, 'OUTCAP': 8, 'PRE0': 2, 'PRE1': 1},
+      witness_inputs=['0x31524112', '0x31524112', '0x11', '0x11', '0x8803', '0x0', '0x0', '0x0', '0x0', '0x0', '0x3', '0x0', '0x0', '0x2', '0x1', '0x0', '0x4', '0xdf52beed'],
+      what='utl::static_vector::resize growth (and small_vector in its in-place mode) exposes the old cell values instead of value-initialised elements'),
+ dict(id='F-C19-vector-sized-ctor-uninit', harness='hist_vector', exclude_define='KF_C19_VECTOR_SIZED_CTOR_UNINIT', witness_config={'KIND': 0, 'K': 1, 'OUTCAP': 8, 'PRE0': 0, 'PRE1': 0},
+      witness_inputs=['0x0', '0x0', '0x0', '0x0', '0x0', '0x0', '0x0', '0x0', '0x0', '0x0', '0x6', '0x0', '0x1', '0xffffffffa1524111'],
+      what='utl::vector<int>(N) leaves its N elements uninitialised (std::vector(N) value-initialises)'),
+ dict(id='F-C19-maybe-nontrivial', harness='maybe_heap', exclude_define='KF_C19_MAYBE_NONTRIVIAL', witness_config={'K': 1},
+      witness_inputs=['0x0', '0x0', '0x0'],
+      what='utl::maybe with a heap-owning value: assignment into an empty maybe assigns to an unconstructed T, nothing destroys the value (leaks / invalid frees)'),
+]
+# END PENDING_FINDINGS
 OUTSIDE = [
  'utl::vector histories of more than 2 fully symbolic steps: with CBMC\'s heap model a 2-step history with all 7 operations symbolic exhausts 7 GB (and 3 steps on ONE object > 7 GB / no verdict in 400 s); '
  'reached instead: 1 symbolic step (all operations) after every pair of 7 concrete reachable pre-states (thorough) and all 49 two-operation sequences with symbolic targets/arguments (thorough; 8 of them quick). '
